@@ -31,6 +31,8 @@ Scen == UNION {{[K |-> kpt[1][1], nx |-> kpt[2], p |-> kpt[1][2], icpt |-> TRUE,
         \cup {[K |-> 1, nx |-> 1, p |-> 1, icpt |-> TRUE, exact |-> TRUE, g |-> 0, prior |-> <<>>, data |-> [t \in 1..6 |-> <<Y1(t), Gen(t, 2)>>]],
               [K |-> 2, nx |-> 0, p |-> 1, icpt |-> TRUE, exact |-> TRUE, g |-> 0, prior |-> <<>>, data |-> [t \in 1..6 |-> <<YA(t), YB(t)>>]],
               [K |-> 1, nx |-> 0, p |-> 1, icpt |-> FALSE, exact |-> FALSE, g |-> 0, prior |-> <<>>, data |-> Rows(6, 1, {}, 0)]}
+        \* two exogenous variables
+        \cup {[K |-> 1, nx |-> 2, p |-> 1, icpt |-> ic, exact |-> FALSE, g |-> 0, prior |-> <<>>, data |-> Rows(8, 3, ms, 0)] : ic \in BOOLEAN, ms \in {{}, {<<3, 1>>}, {<<5, 3>>}}}
 
 \* prior dummy observations (integer parameters keep the normal equations integral)
 Minn(rho, mu, kappa) == [kind |-> "minn", rho |-> rho, mu |-> mu, kappa |-> kappa]
